@@ -27,13 +27,10 @@ ATOMIC_LOAD = ['core::sync::atomic::Atomic::load', 'core::sync::atomic::AtomicBo
 ATOMIC_STORE = ['core::sync::atomic::Atomic::store', 'core::sync::atomic::AtomicBool::store']
 
 
-# who may write the command runtime's atomic flags: (function, flag field) -> why
+# who may write the aborted flags of the command runtime: (function, flag field) -> why
 FLAG_WRITERS = {
     ('crux_core::command::executor::AbortHandle::abort', 'aborted'): 'the abort handle of a command',
     ('crux_core::command::executor::JoinHandle::abort', 'aborted'): 'the join handle of a task',
-    ('crux_core::command::executor::Command::run_until_settled', 'finished'): 'a removed task is marked finished for its join handles',
-    ('<crux_core::command::executor::CommandWaker as alloc::task::Wake>::wake_by_ref', 'woken'): 'the per-poll wake mark',
-    ('<crux_core::command::executor::CommandWaker as alloc::task::Wake>::wake', 'woken'): 'the per-poll wake mark',
 }
 # where an `aborted` flag is put into a value, and where it must come from: (function, type) -> 'fresh' | 'shared'
 FLAG_TOPOLOGY = {
@@ -69,6 +66,9 @@ def check_flag_ownership(rep, core):
             if (host, flag) in FLAG_WRITERS:
                 seen_w.add((host, flag))
                 rep.ok('R06.i', key, 'tabled: ' + FLAG_WRITERS[(host, flag)])
+            elif 'aborted' not in fields and (fields or 'Atomic<bool>' not in (t['args'][0].get('t') or '')):
+                # another flag of the runtime (finished, woken, a counter): where it is written is the business of R07.b / R05.b
+                rep.ok('R06.i', key, 'not an aborted flag (%s)' % sorted(fields))
             else:
                 rep.bad('R06.i', key, '%s writes the flag `%s` (%s at %s): only %s may set an aborted flag — work that was not cancelled '
                         'through a handle (an evicted or finished task, a sibling) must not become aborted, and through the flag it shares, neither may its command'
